@@ -239,7 +239,7 @@ func init() {
 			c.Check(rs && ps, key+" resets LockedRound and parts", w.ipos(fs.Store), "LockedRound=-1 and LockedBlockParts=nil with it", "LockedRound/LockedBlockParts are not reset together with LockedBlock")
 			isParamRound := false
 			for _, p := range outermost(fs.Fn).Params {
-				if p.Name() == R {
+				if canonParamName(p) == R {
 					isParamRound = true
 				}
 			}
@@ -338,7 +338,7 @@ func init() {
 
 func paramName(f *ssa.Function, i int) string {
 	if i < len(f.Params) {
-		return f.Params[i].Name()
+		return canonParamName(f.Params[i])
 	}
 	return "?"
 }
